@@ -3,7 +3,8 @@
    trigger predicate, fragmentation in IEEE-754 binary64 via Flocq).  Real time is abstracted to
    ticks; "within one check interval plus jitter" is "at the first wake-up after the trigger is
    exceeded", the wake-ups being at most interval*(1+jitter) apart by construction of the sleep:
-   partial.  The `window` policy (wall-clock hours) is outside the property's quantifier. *)
+   partial.  The `window` policy is outside the property's quantifier; it is modelled with the local hour as an
+   input (theorem 2b). *)
 From Coq Require Import List.
 Import ListNotations.
 From BC Require Import Store.Engine Sys.Trigger Sys.Background.
@@ -20,6 +21,14 @@ Theorem C18_always_iff_triggered : forall b s ord, b_policy b = PAlways ->
   snd (fst (bstep b s (MergeTick ord))) = if can_merge PAlways (b_trig b) s then OMerged else OSkipped.
 Proof. exact always_merges_iff_triggered. Qed.
 Print Assumptions C18_always_iff_triggered.
+
+(* 2b. With policy `window a..z`, a wake-up at local hour h inside the hours (a <= h <= z, both ends
+       included, as the code compares) behaves as `always`; a wake-up outside them merges nothing. *)
+Theorem C18_window : forall b s ord a z h, b_policy b = PWindow a z h ->
+  snd (fst (bstep b s (MergeTick ord))) =
+  if (a <=? h)%N && (h <=? z)%N then (if can_merge PAlways (b_trig b) s then OMerged else OSkipped) else OSkipped.
+Proof. exact window_tick. Qed.
+Print Assumptions C18_window.
 
 (* 3. With interval sync, every wake-up of the sync task forces the file that is active then. *)
 Theorem C18_sync_interval : forall b s, b_sync_interval b = true ->
